@@ -9,7 +9,10 @@ package interp
 
 import (
 	"encoding/json"
+	"go/token"
 	"go/types"
+
+	"golang.org/x/tools/go/ssa"
 	"reflect"
 	"strings"
 )
@@ -22,6 +25,36 @@ func (i *interpreter) hasMethod(T types.Type, name string) bool {
 		}
 	}
 	return false
+}
+
+type jsonDecodeError struct{ err value }
+
+// jsonDecodeTop decodes into the target itself: if the target type has its own UnmarshalJSON and we are not already
+// inside it, that method runs; encoding/json does the same.
+func (i *interpreter) jsonDecodeTop(T types.Type, addr *value, data interface{}) {
+	if _, isNamed := T.(*types.Named); isNamed {
+		if fn := i.methodOf(types.NewPointer(T), "UnmarshalJSON"); fn != nil && !i.insideUnmarshalOf(fn) {
+			i.jsonDecode(T, addr, data)
+			return
+		}
+	}
+	i.jsonDecodeStruct(T, addr, data)
+}
+
+// insideUnmarshalOf: is fn already on the interpreter's call stack (it called json.Unmarshal on its own receiver type,
+// usually through an alias type, which has no methods - so this only guards direct recursion)?
+func (i *interpreter) insideUnmarshalOf(fn *ssa.Function) bool {
+	for fr := i.jsonFrame; fr != nil; fr = fr.caller {
+		if fr.fn == fn {
+			return true
+		}
+	}
+	return false
+}
+
+// jsonDecodeStruct decodes without consulting the target type's own unmarshaller.
+func (i *interpreter) jsonDecodeStruct(T types.Type, addr *value, data interface{}) {
+	i.jsonDecodeInner(T, addr, data, true)
 }
 
 type jsonField struct {
@@ -42,8 +75,12 @@ func (i *interpreter) jsonFields(st *types.Struct, prefix []int, out map[string]
 		if f.Anonymous() && name == "" {
 			ft := f.Type()
 			if p, ok := ft.Underlying().(*types.Pointer); ok {
-				_ = p
-				unsup("json.Unmarshal: embedded pointer field")
+				// embedded pointer to a struct: its members are promoted; path element -1 means "through the pointer"
+				if es, ok := p.Elem().Underlying().(*types.Struct); ok {
+					i.jsonFields(es, append(append([]int{}, path...), -1), out)
+					continue
+				}
+				unsup("json.Unmarshal: embedded pointer to a non-struct")
 			}
 			if es, ok := ft.Underlying().(*types.Struct); ok {
 				i.jsonFields(es, path, out)
@@ -61,8 +98,30 @@ func (i *interpreter) jsonFields(st *types.Struct, prefix []int, out map[string]
 }
 
 func (i *interpreter) jsonDecode(T types.Type, addr *value, data interface{}) {
-	if _, isNamed := T.(*types.Named); isNamed && (i.hasMethod(T, "UnmarshalJSON") || i.hasMethod(T, "UnmarshalText")) {
-		unsup("json.Unmarshal into %s, which has its own unmarshaller", T)
+	i.jsonDecodeInner(T, addr, data, false)
+}
+
+func (i *interpreter) jsonDecodeInner(T types.Type, addr *value, data interface{}, skipOwn bool) {
+	if _, isNamed := T.(*types.Named); isNamed && !skipOwn {
+		if fn := i.methodOf(types.NewPointer(T), "UnmarshalJSON"); fn != nil {
+			// the type's own UnmarshalJSON runs (real code) on the member's JSON text
+			raw, err := json.Marshal(data)
+			if err != nil {
+				unsup("json.Unmarshal: cannot re-serialise a member: %v", err)
+			}
+			bs := make([]value, len(raw))
+			for k, b := range raw {
+				bs[k] = b
+			}
+			res := call(i, i.jsonFrame, token.NoPos, fn, []value{addr, bs})
+			if !isNilErr(res) {
+				panic(jsonDecodeError{res})
+			}
+			return
+		}
+		if i.hasMethod(T, "UnmarshalText") {
+			unsup("json.Unmarshal into %s, which has its own text unmarshaller", T)
+		}
 	}
 	if data == nil {
 		switch T.Underlying().(type) {
@@ -102,8 +161,17 @@ func (i *interpreter) jsonDecode(T types.Type, addr *value, data interface{}) {
 			cur := (*addr).(structure)
 			var cell *value
 			for d, idx := range f.path {
+				if idx == -1 {
+					// through an embedded pointer (cell holds it)
+					p, _ := (*cell).(*value)
+					if p == nil {
+						unsup("json.Unmarshal: nil embedded pointer")
+					}
+					cur = (*p).(structure)
+					continue
+				}
 				cell = &cur[idx]
-				if d < len(f.path)-1 {
+				if d < len(f.path)-1 && f.path[d+1] != -1 {
 					cur = (*cell).(structure)
 				}
 			}
@@ -208,8 +276,24 @@ func init() {
 		if err := json.Unmarshal(raw, &doc); err != nil {
 			return fr.i.opaqueError("json: "+err.Error(), iface{})
 		}
-		fr.i.jsonDecode(pt.Elem(), p, doc)
-		return iface{}
+		prev := fr.i.jsonFrame
+		fr.i.jsonFrame = fr
+		defer func() { fr.i.jsonFrame = prev }()
+		var result value = iface{}
+		func() {
+			defer func() {
+				if p := recover(); p != nil {
+					if je, ok := p.(jsonDecodeError); ok {
+						result = je.err
+						return
+					}
+					panic(p)
+				}
+			}()
+			// the top-level target's own UnmarshalJSON is what called us (or there is none): decode its members
+			fr.i.jsonDecodeTop(pt.Elem(), p, doc)
+		}()
+		return result
 	}
 }
 
